@@ -18,7 +18,7 @@ func init() {
 		jsonSinkRule("C08.example", "an example (exampleBuilder): an example that is not JSON is not an instance of any schema", func(pkgRel, fn string) bool {
 			return pkgRel == "notations/jschema" && strings.Contains(fn, "exampleBuilder")
 		}, 2),
-		c08jsonValue, c08props, c08nofloat, trimQuoteRule("C08.trimquote"), keyEncoderRule("C08.keyencoder"), c10share("C08.share"), strClassRule("C08.strclass"), enumMemberRule("C08.enummember"), keyTypeRule("C08.keytype"), sepRule("C08.sep", []string{"openapi"}, 4))
+		tokenAgreeRule("C08.tokenagree"), c08jsonValue, c08props, c08nofloat, trimQuoteRule("C08.trimquote"), keyEncoderRule("C08.keyencoder"), c10share("C08.share"), strClassRule("C08.strclass"), enumMemberRule("C08.enummember"), keyTypeRule("C08.keytype"), sepRule("C08.sep", []string{"openapi"}, 4))
 }
 
 // c08wire: rule-name constants used in openapi/** must be rule names; keyword<-rule table.
